@@ -123,7 +123,8 @@ def run_shard(shard, out_base):
         def hyp(t, strict):
             judge.judge_bic(mon, t, strict, "B6h", "accept")
 
-        hyp()
+        if not shard.get("_threads"):
+            hyp()
     except ImportError:
         mon.notes["hypothesis"] = "not available"
     return mon.result(out_base)
